@@ -413,6 +413,13 @@ func RunScenario(sc Scenario) Result {
 	prep := prepare(w, op)
 	defer prep.close()
 	pre := takeSnap(r, slots, false)
+	// what the handle under test itself reads before the operation (a cached v1 handle may lag behind the
+	// storage after earlier writes – that is C06's subject, not a consequence of the fault): the same-handle
+	// clauses compare like with like
+	preSame := pre
+	if len(sc.Same) > 0 && op.Kind != "h" {
+		preSame = takeSnap(r, slots, true)
+	}
 	preHalf := halfWritten(w, r, slots)
 	var preRing ringView
 	if op.Kind == "h" {
@@ -477,6 +484,22 @@ func RunScenario(sc Scenario) Result {
 	if op.Kind == "h" {
 		requestDestroy(op.Hop)
 	}
+	// SetCurrent through the handle: which values may the ring's current pointer have after the restart?
+	// A SetCurrent that succeeded fixes it; one that failed before the ring was replaced changes nothing; only
+	// a failure at the final Unlock (or a crash at/after the Rename) leaves both possibilities.
+	allowedCur := map[int]bool{}
+	setCurrent := func(hop, outcome, firedCall string, faulted bool) {
+		if hop[0] != 'C' {
+			return
+		}
+		q, _ := strconv.Atoi(hop[1:])
+		switch {
+		case outcome == "ok":
+			allowedCur = map[int]bool{q: true}
+		case outcome == "crash" || (faulted && firedCall == "Unlock"):
+			allowedCur[q] = true
+		}
+	}
 	in.Arm(sc.Mode, sc.K)
 	res.Outcome = crashed(func() error {
 		if op.Kind == "h" {
@@ -486,6 +509,10 @@ func RunScenario(sc Scenario) Result {
 	})
 	in.Disarm()
 	res.Calls = in.Calls
+	if op.Kind == "h" {
+		allowedCur[preRing.Current] = true
+		setCurrent(op.Hop, res.Outcome, in.FiredCall, true)
+	}
 
 	// ---- identities of what the operation was writing (read from the storage, not through the store)
 	consume := func() {
@@ -568,6 +595,7 @@ func RunScenario(sc Scenario) Result {
 				}
 				requestDestroy(hop)
 				o := crashed(func() error { return runHop(prep.ring, op.Slot, hop, regHop) })
+				setCurrent(hop, o, "", false)
 				res.SameObs = append(res.SameObs, o)
 			}
 		} else {
@@ -575,7 +603,7 @@ func RunScenario(sc Scenario) Result {
 				panic("harness: same-handle follow-ups are not defined for imports")
 			}
 			// what the running process reads right after the failed operation
-			j.clauses(pre, takeSnap(r, slots, true), slots, "same handle, before restart")
+			j.clauses(preSame, takeSnap(r, slots, true), slots, "same handle, before restart")
 			for i, t := range sc.Same {
 				fop, ok := c06.ParseOp(t)
 				if !ok {
@@ -585,6 +613,8 @@ func RunScenario(sc Scenario) Result {
 				res.SameObs = append(res.SameObs, o)
 				live("on the same handle", t, o, fop.Kind)
 			}
+			// (through an emptied cache: what the process reads from the storage it wrote)
+			r.Step(999, c06.Op{Kind: "x", Tok: "x"})
 			mid, haveMid = takeSnap(r, slots, true), true
 		}
 	}
@@ -638,6 +668,9 @@ func RunScenario(sc Scenario) Result {
 	if op.Kind == "h" {
 		// ring level: every key of the handle's ring that was not destroyed successfully keeps its material
 		postRing := viewRing(w, op.Slot)
+		if !allowedCur[postRing.Current] {
+			fail("current-corrupt:"+f, "after %s and the handle operations %v the ring of %v has current key %d although no SetCurrent to it succeeded (ring before: %v, after: %v)", j.where(), sc.Same, op.Slot, postRing.Current, preRing, postRing)
+		}
 		for _, k := range preRing.Keys {
 			if k.Material == nil || j.gone[op.Slot][r.PrivID(op.Slot, k.Material)] {
 				continue
